@@ -3,13 +3,15 @@ import ColaVerif.Model.RuleSkeleton
 
 /-!
 Line-protocol driver of C19 (cost level): the operator is given by its SHAPE tree only
-(`["dense", r, c]`, `["tri", r, c]`, `["scalar", n]`, `["eye", n]`, `["diag", n]`, `["tridiag", n]`,
-`["perm", n]`, `["prod", e…]`, `["sum", e…]`, `["kron", e…]`, `["kronsum", e…]`,
+(`["dense", r, c]`, `["tri", r, c]`, `["sparse", r, c, [[i, j]…]]`, `["scalar", n]`, `["eye", n]`, `["diag", n]`,
+`["tridiag", n]`, `["perm", n]`, `["house", n]`, `["T", e]`, `["prod", e…]`, `["sum", e…]`, `["kron", e…]`, `["kronsum", e…]`,
 `["bdiag", [e…], [mult…]]`, `["ann", e]`); payloads are irrelevant for `allocs`, `vol`, `dens`.
 
 Input  `{"id":…, "op": shape tree, "b": columns}`
 Output `{"id":…, "rows":…, "cols":…, "vol":…, "leaf":…, "inScope":…, "wf":…, "square":…,
-         "allocs":[…], "rules": {fn: {"has": bool, "dens": [[rows, cols] …]}}}`
+         "allocs":[…], "peak":…, "lvl":…, "factorDense":…, "linSize":…,
+         "rules": {fn: {"has": bool, "deep": bool, "cost": ruleCost, "dens": [[rows, cols] …]}}}`
+(`peak` = `Op.peakMM`, `lvl` = `Op.lvl`: the right-hand side of theorem C19_matmat_peak is `lvl·vol·b + leaf`).
 Run with `lake env lean --run DriverC19.lean < cases.jsonl`.
 -/
 
@@ -23,6 +25,13 @@ partial def jShape (j : Json) : E (Op Int) := do
   match tag with
   | "dense" => pure (.dense .f64 (← jNat (arg 1)) (← jNat (arg 2)) (fun _ _ => 0))
   | "tri" => pure (.tri .f64 (← jNat (arg 1)) (← jNat (arg 2)) true (fun _ _ => 0))
+  | "sparse" => do
+      let co ← (← jArr (arg 3)).toList.mapM fun p => do
+        let q ← jArr p
+        pure ((← jNat (q.getD 0 .null)), (← jNat (q.getD 1 .null)), (0 : Int))
+      pure (.sparse .f64 (← jNat (arg 1)) (← jNat (arg 2)) co)
+  | "house" => pure (.house .f64 (← jNat (arg 1)) (fun _ => 0) 2)
+  | "T" => pure (.transpose (← jShape (arg 1)))
   | "scalar" => pure (.scalar .f64 1 (← jNat (arg 1)))
   | "eye" => pure (.eye .f64 (← jNat (arg 1)))
   | "diag" => pure (.diag .f64 (← jNat (arg 1)) (fun _ => 1))
@@ -52,10 +61,11 @@ def handle (j : Json) : E String := do
   let b ← jNat ((j.getObjVal? "b").toOption.getD .null)
   let rules := Op.Fn.all.map fun f =>
     let ds := (Op.dens f A).map fun D => showNats [D.rows, D.cols]
-    s!"\"{fnName f}\":\{\"has\":{showB (Op.hasRule f A)},\"dens\":[{",".intercalate ds}]}"
+    s!"\"{fnName f}\":\{\"has\":{showB (Op.hasRule f A)},\"deep\":{showB (Op.deepRule f A)},\"cost\":{Op.ruleCost f A},\"dens\":[{",".intercalate ds}]}"
   return "{\"id\":" ++ id.compress ++
     s!",\"rows\":{A.rows},\"cols\":{A.cols},\"vol\":{A.vol},\"leaf\":{A.leafStorage}" ++
     s!",\"inScope\":{showB A.inScope},\"wf\":{showB A.wf},\"square\":{showB A.squareLeaves}" ++
-    s!",\"allocs\":{showNats (A.allocs b)},\"rules\":\{{",".intercalate rules}}}"
+    s!",\"allocs\":{showNats (A.allocs b)},\"peak\":{A.peakMM b},\"lvl\":{A.lvl}" ++
+    s!",\"factorDense\":{A.factorDense},\"linSize\":{A.linSize},\"rules\":\{{",".intercalate rules}}}"
 
 def main : IO Unit := driverMain handle
